@@ -10,3 +10,5 @@ open Just.Props.C17
 #print axioms doc_displayed_is_declared
 #print axioms entries_are_declared
 #print axioms alias_annotation_iff
+#print axioms mem_insertBy
+#print axioms mem_sortByOffset
